@@ -152,6 +152,11 @@ type Packet struct {
 	Wire  []byte       // encoded form (what travels)
 }
 
+type Delivery struct {
+	Event int
+	Pkt   *Packet
+}
+
 type Config struct {
 	ChainID           string
 	Keys              []int   // ring keys of all validators
@@ -172,6 +177,8 @@ type Net struct {
 	Blocked map[[2]int]bool // (from,to) pairs currently cut
 	NextPkt int
 	closed  bool
+	// Deliveries[j]: every packet handed to node j, with the index of the "deliver" event
+	Deliveries map[int][]Delivery
 	// hooks
 	OnEmit func(n *Node, p *Packet) // called when a correct node emits a message
 }
@@ -211,7 +218,7 @@ func New(c Config) (*Net, error) {
 	if err := gen.ValidateAndComplete(); err != nil {
 		return nil, err
 	}
-	net := &Net{Cfg: c, GenDoc: gen, Nodes: map[int]*Node{}, Blocked: map[[2]int]bool{}}
+	net := &Net{Cfg: c, GenDoc: gen, Nodes: map[int]*Node{}, Blocked: map[[2]int]bool{}, Deliveries: map[int][]Delivery{}}
 	for _, k := range c.Correct {
 		n, err := net.newNode(k)
 		if err != nil {
@@ -385,6 +392,7 @@ func (net *Net) Deliver(p *Packet, to int) bool {
 		net.Logf("deliver #%d to %d: ValidateBasic failed (%v) - dropped as the reactor would", p.ID, to, err)
 		return true
 	}
+	net.Deliveries[to] = append(net.Deliveries[to], Delivery{Event: len(net.Events), Pkt: p})
 	net.Logf("deliver #%d (%s from %d h=%d r=%d %s) to %d", p.ID, p.Kind, p.From, p.H, p.R, p.Block, to)
 	net.protect(n, "peer "+p.Kind, func() { n.CS.VerifHandleMsg(msg, peerOf(p.From)) })
 	n.CS.VerifDrainStats()
